@@ -45,6 +45,7 @@ KNOWN_TEMPLATES = {
     "c01:minmax-seeded-zero": 'ds.Select(lambda e: e.{C}("b1").Select(lambda j: j.pt()).Min())',
     "c01:range-bound-computed": 'ds.Select(lambda e: Range(0, e.{C}("b1").Count()).Select(lambda i: i*2.0).Sum())',
     "c01:aggregate-seed-computed": 'ds.Select(lambda e: e.{C}("b1").Select(lambda j: j.pt()).Aggregate(e.{D}("b1").Count(), lambda a, v: a + v))',
+    "c01:shared-sequence-inside-own-loop": 'ds.Select(lambda e: e.{C}("b1")).SelectMany(lambda js: js.Select(lambda j: (j.pt(), js.Count())))',
     "c01:index-on-sequence-refused": 'ds.Select(lambda e: e.{C}("b1").Select(lambda j: j.pt())[0])',
 }
 TERMINALS = {"Sum", "Count", "Aggregate", "First", "Min", "Max"}
@@ -95,6 +96,13 @@ def classify(src: str) -> Optional[str]:
             lam = node.args[0] if node.args and isinstance(node.args[0], ast.Lambda) else None
             if lam is not None and any(isinstance(x, ast.Call) and isinstance(x.func, ast.Attribute) and x.func.attr == "Select" for x in ast.walk(lam.body)):
                 found.append("c01:selectmany-seq-column")
+    # a sequence bound to a lambda parameter that is iterated (js.Select / js.SelectMany / js.Where ...) and used AGAIN inside
+    # the lambda of that very iteration: the inner use re-uses the open loop instead of getting its own
+    for node in ast.walk(tree):
+        if (isinstance(node, ast.Call) and isinstance(node.func, ast.Attribute) and node.func.attr in ("Select", "SelectMany", "Where")
+                and isinstance(node.func.value, ast.Name) and node.args and isinstance(node.args[0], ast.Lambda)
+                and node.func.value.id in names(node.args[0].body)):
+            found.append("c01:shared-sequence-inside-own-loop")
     for node in ast.walk(tree):
         if isinstance(node, ast.Call) and isinstance(node.func, ast.Name) and node.func.id == "Range":
             if any(isinstance(x, ast.Call) for a in node.args for x in ast.walk(a)):
@@ -258,7 +266,7 @@ def check(tier: str, seed: int, t0: float, build: core.BuildStatus) -> int:
             md = uni.metadata()
             for _ in range(n_rand):
                 src, q = qgen.gen_query(rng, uni, depth=rng.choice([1, 2, 3, 3] if tier == "quick" else [1, 2, 3, 3, 4]),
-                                        allow=("first", "aggregate", "range", "selectmany_inside"))
+                                        allow=("first", "aggregate", "range", "selectmany_inside", "shared_shapes"))
                 c = semrun.translate(be, src, md, model)
                 oc.evaluations += 1
                 for f in q.feat:
